@@ -428,7 +428,7 @@ fn edits_for(kind: &'static str) -> Vec<Edit> {
 
 pub fn run(tier: &str) -> Run {
     let mut run = Run::new("C05", tier);
-    let thorough = tier == "thorough";
+    let thorough = crate::util::wide(tier);
     let g = corpus::grammar();
     let carriers = corpus::carriers(&g);
     let mut cases: Vec<Case> = Vec::new();
